@@ -483,13 +483,16 @@ def call_ve(ctx, model, spec, states, order):
     return ctx.call(go)
 
 
-def call_bp(ctx, model, spec, states):
+def call_bp(ctx, model, spec, states, prep=None):
+    """prep: None (fresh engine), "calibrate" or "max_calibrate" (engine the user calibrated explicitly first)."""
     from pgmpy.inference import BeliefPropagation
     ev = {v: states[v][s] for v, s in spec["evidence"].items()}
     virt = spec.get("virtual") or []
 
     def go():
         bp = BeliefPropagation(model)
+        if prep:
+            getattr(bp, prep)()
         return bp.map_query(variables=list(spec["query"]), evidence=dict(ev) or None,
                             virtual_evidence=make_virtual(states, virt) if virt else None, show_progress=False)
     return ctx.call(go)
@@ -596,6 +599,15 @@ def run_bn(spec, ctx):
                 if outcome(ctx, call_bp(ctx, m2, spec, ident), query, ident, post) is None:
                     key = "c03:bp-clique-potential-state-names"
             ctx.violation(key, f"{label}: {bad[1]}", **detail)
+        # the same MAP question on an engine that was explicitly (max-)calibrated before
+        if bad is None and spec["build_seed"] % 2 == 0:
+            for prep in ("max_calibrate", "calibrate"):
+                b2 = outcome(ctx, call_bp(ctx, model, spec, states, prep=prep), query, states, post)
+                if b2 is None:
+                    ctx.ok()
+                    ctx.note(f"bp-ok-after-{prep}")
+                else:
+                    ctx.violation(b2[0] + f":after-{prep}", f"BP.map_query after {prep}(): {b2[1]}", **detail)
     else:
         ctx.note("bp-skipped-disconnected")
 
